@@ -13,8 +13,9 @@ EXPLANATION = (
     "file; (C01.2) a batch is stamped with the freshly incremented sequence number before it is logged or inserted "
     "(C06.1 rules); (C01.3) a version naming a new SST is installed only after link and manifest edit (C02.4 rules); "
     "(C01.4) imm is cleared only after the version containing its SST is installed (C06.4 rules); (C01.5) on open the "
-    "sequence counter starts above both the recovered logs' and the tree's largest timestamp.  ORDER/GUARDED/ORIGIN/HELD.")
-NOT_DECIDED = ("the compaction input closure (compute_bounds/expand_compaction fixed point), level assignment on recovery, bloom "
+    "sequence counter starts above both the recovered logs' and the tree's largest timestamp; (C01.8) recovery's level "
+    "propagation re-queues every component whose level it raises.  ORDER/GUARDED/ORIGIN/HELD/MUSTPASS.")
+NOT_DECIDED = ("the compaction input closure (compute_bounds/expand_compaction fixed point), level assignment on recovery beyond the re-queue rule, bloom "
                "filter and block search arithmetic: they need the tree shapes and histories the property quantifies over")
 ASSUMPTIONS = ["MemTable::load / Sst::load return the newest version <= timestamp of the key in that component (C10, C17)"]
 
@@ -30,6 +31,7 @@ def rules(ctx):
     c015(ctx)
     c016(ctx)
     c017(ctx)
+    c018(ctx)
     # a key (or tombstone) missing from an SST's bloom filter makes Sst::load miss it and the search fall through to
     # an older version: the builder-side accumulation rule of C10.2 is a necessary condition of point reads too
     from . import C10
@@ -51,6 +53,38 @@ def rules(ctx):
     C13.c135(ctx)
     C08.c084(ctx)
     C08.c086(ctx)   # an ingest installs on top of the current version, not a snapshot from before its stall wait
+
+
+def c018(ctx):
+    R = "C01.8"
+    ctx.declare(R, "recovery's level propagation is a worklist relaxation: a component whose level is raised is queued again, so the raise reaches its successors")
+    f = ctx.fn(R, "lsmtk::tree::recover::recover")
+    if not f:
+        return
+    pops = ctx.calls(R, f, r"alloc::vec::Vec::pop$")
+    if len(pops) != 1:
+        ctx.check(R, f, "one-worklist", False, "", "expected exactly one worklist pop in recover, found %d" % len(pops))
+        return
+    pop = pops[0]
+    wl = K.ref_base(f, P.term_at(f, pop)["args"][0])
+    pushes = [p for p in P.call_points(f, r"alloc::vec::Vec::push$") if wl is not None and K.ref_base(f, P.term_at(f, p)["args"][0]) == wl]
+    ctx.check(R, f, "worklist", wl is not None and len(pushes) >= 2, "the worklist is one local vector, seeded before the loop and pushed to inside it",
+              "cannot identify the worklist pushes in recover")
+    writes = [w for w in P.field_writes(f, r"recover::Vertex$", "level")
+              if P.reach(f, P.after(f, pop), [w]) is not None and P.reach(f, P.after(f, w), [pop]) is not None]
+    ctx.floor(R, "Vertex.level writes inside the relaxation loop", len(writes), 1)
+    for n, w in enumerate(writes):
+        st = f.blocks[w[0]].st[w[1]]
+        idx = None
+        for s in P.origins(f, {"k": "copy", "pl": {"l": st["lhs"]["l"], "p": []}}, through_calls=False):
+            if s["k"] == "call" and s["callee"].endswith("IndexMut>::index_mut"):
+                idx = K.root_local(f, s["t"]["args"][1])
+        same = [p for p in pushes if idx is not None and K.root_local(f, P.term_at(f, p)["args"][1]) == idx]
+        byp = P.reach(f, P.after(f, w), [pop], avoid=set(same)) if same else True
+        ctx.check(R, f, "requeue-on-raise", same and byp is None,
+                  "the component whose level is written is pushed back onto the worklist before the next pop",
+                  "a component's level is raised without queueing it again: its successors keep a level that is not below it, so an older file can be searched before a newer one",
+                  pt=w, path=byp if isinstance(byp, list) else None)
 
 
 def c016(ctx):
